@@ -251,6 +251,10 @@ fn build_blocks(thorough: bool) -> Vec<Block> {
             blocks_for("f2", e, &h.bytes(), Some(&S), l_body, &mut v);
         }
     }
+    for h in HEADER_SHAPES.iter().filter(|h| h.flags & 0x8000 == 0) {
+        blocks_for("f2", Entry::FrontDoor, &h.bytes(), Some(&S), l_rdata, &mut v);
+    }
+    blocks_for("f1", Entry::FrontDoor, &[], None, 2, &mut v);
     for &c in &codes {
         blocks_for("f2", Entry::Rdata { rtype: c, off: 0 }, &[], Some(&S), l_rdata, &mut v);
     }
@@ -339,6 +343,10 @@ fn build_edit_items(thorough: bool, entries: &[c01::alphabet::Entry], msg_seeds:
         for e in [Entry::Message, Entry::Request, Entry::Response, Entry::TsigTbs] {
             items.push(EditItem { tag: s.tag.clone(), entry: e, prefix: vec![], seed: s.bytes.clone(), pairs: false });
         }
+        // the server's front door drops responses at its first gate: it gets the query-shaped twin (QR cleared)
+        let mut q = s.bytes.clone();
+        q[2] &= 0x7f;
+        items.push(EditItem { tag: format!("query-twin:{}", s.tag), entry: Entry::FrontDoor, prefix: vec![], seed: q, pairs: false });
     }
     let pfx12 = families::pointer_target_prefix(12);
     for (tag, t, w) in seeds::rdata_seeds(entries) {
@@ -365,9 +373,73 @@ fn build_edit_items(thorough: bool, entries: &[c01::alphabet::Entry], msg_seeds:
 }
 
 // ------------------------------------------------------------------------------------------
+// family 1b: RData::read for ALL 65,536 type codes; family 5: all values of every 16-bit window
+
+/// Type codes 256*chunk .. 256*chunk+255: every string of length <= 1 and the RFC RDATA of every
+/// alphabet entry, decoded as RDATA of that type.
+fn run_type_chunk(chunk: u64, wires: &[Vec<u8>], l: &mut Local) {
+    let mut t = Tally::default();
+    let mut buf: Vec<u8> = vec![];
+    for code in chunk * 256..chunk * 256 + 256 {
+        let e = Entry::Rdata { rtype: code as u16, off: 0 };
+        for len in 0..=1usize {
+            for i in 0..256u64.pow(len as u32) {
+                buf.clear();
+                families::bytes_at(len, i, &mut buf);
+                judge(e, &buf, Some("work-bound:rdata"), false, &mut t, l, &|| byte_case(e, &buf));
+            }
+        }
+        for w in wires {
+            judge(e, w, Some("work-bound:rdata"), false, &mut t, l, &|| byte_case(e, w));
+        }
+    }
+    t.flush("f1b", "rdata", l);
+}
+
+struct WinItem {
+    tag: String,
+    seed: Vec<u8>,
+    lo: usize,
+    hi: usize,
+}
+
+/// One-record messages (answer / additional section, plain and UPDATE) around the RFC RDATA of the
+/// alphabet entries, OPT and TSIG. Quick: the first entry of every type, windows over the record's
+/// fixed fields and its first 24 RDATA octets; thorough: every entry, every window from the flags word on.
+fn build_win_items(thorough: bool, entries: &[c01::alphabet::Entry]) -> Vec<WinItem> {
+    let mut items = vec![];
+    let mut seen = std::collections::BTreeSet::new();
+    let mut buf = vec![];
+    for (tag, t, w) in seeds::rdata_seeds(entries) {
+        if !thorough && !seen.insert(t) {
+            continue;
+        }
+        families::message_with_rdata(t, &w, false, &mut buf);
+        let (lo, hi) = if thorough { (2, buf.len()) } else { (12, buf.len().min(12 + 11 + 24)) };
+        items.push(WinItem { tag: tag.clone(), seed: buf.clone(), lo, hi });
+        if thorough {
+            families::message_with_rdata(t, &w, true, &mut buf);
+            items.push(WinItem { tag: format!("update:{tag}"), seed: buf.clone(), lo: 12, hi: buf.len().min(12 + 11 + 8) });
+        }
+    }
+    items
+}
+
+fn run_win_item(it: &WinItem, l: &mut Local) {
+    let mut t = Tally::default();
+    let n = families::windows16(&it.seed, it.lo, it.hi, |b| {
+        judge(Entry::Message, b, Some("work-bound:message"), false, &mut t, l, &|| byte_case(Entry::Message, b));
+    });
+    if l.samples.len() < 3 {
+        l.sample(json!({"family": "f5", "seed": it.tag, "windows": [it.lo, it.hi], "strings": n}));
+    }
+    t.flush("f5", "message", l);
+}
+
+// ------------------------------------------------------------------------------------------
 // family 4: growth
 
-const GROWTH_ENTRIES: [Entry; 4] = [Entry::Message, Entry::Request, Entry::Response, Entry::TsigTbs];
+const GROWTH_ENTRIES: [Entry; 5] = [Entry::Message, Entry::Request, Entry::Response, Entry::TsigTbs, Entry::FrontDoor];
 
 /// Runs the whole size sweep of one (family, qd1, entry) and judges the curve. Returns the
 /// (len, ticks) points.
@@ -376,7 +448,10 @@ fn run_growth(family: &str, qd1: bool, entry: Entry, l: &mut Local) -> Vec<(u32,
     let mut pts: Vec<(u32, usize, u64)> = vec![];
     let key = format!("work-superlinear:{family}");
     for n in families::growth_sizes(family, qd1) {
-        let Some(buf) = families::growth(family, n, qd1) else { continue };
+        let Some(mut buf) = families::growth(family, n, qd1) else { continue };
+        if entry == Entry::FrontDoor {
+            buf[2] &= 0x7f; // query-shaped twin: the front door drops responses unread
+        }
         let case = || json!({"entry": entry.label(), "family": family, "n": n, "qd1": qd1, "len": buf.len()});
         let before = t.max_ticks;
         t.max_ticks = 0;
@@ -425,6 +500,18 @@ fn replay(ctx: &Ctx, case: &Value) {
                     let items = build_edit_items(thorough, &entries, &msg_seeds);
                     if let Some(it) = f[2].parse::<usize>().ok().and_then(|i| items.get(i)) {
                         run_edit_item(it, l);
+                    }
+                }
+                "types" if f.len() == 3 => {
+                    let entries = rdata_alphabet(f[1] == "true");
+                    let wires: Vec<Vec<u8>> = entries.iter().map(|e| e.wire.clone()).collect();
+                    run_type_chunk(f[2].parse().unwrap_or(0), &wires, l);
+                }
+                "win" if f.len() == 3 => {
+                    let thorough = f[1] == "true";
+                    let items = build_win_items(thorough, &rdata_alphabet(thorough));
+                    if let Some(it) = f[2].parse::<usize>().ok().and_then(|i| items.get(i)) {
+                        run_win_item(it, l);
                     }
                 }
                 "growth" if f.len() == 4 => {
@@ -523,6 +610,23 @@ fn main() {
         run_edit_item(&items[i as usize], l)
     });
 
+    // family 1b: all 65,536 type codes
+    let wires: Vec<Vec<u8>> = entries.iter().map(|e| e.wire.clone()).collect();
+    ctx.set("f1b_decodes", json!(65536u64 * (257 + wires.len() as u64)));
+    ctx.par_run(256, 1, |i, l| {
+        ctx.watch(l.worker, || format!("types|{thorough}|{i}"));
+        run_type_chunk(i, &wires, l)
+    });
+
+    // family 5: all 65,536 values of every 16-bit window
+    let witems = build_win_items(thorough, &entries);
+    ctx.set("f5_seeds", json!(witems.len()));
+    ctx.set("f5_windows", json!(witems.iter().map(|w| w.hi.min(w.seed.len() - 1) - w.lo).sum::<usize>()));
+    ctx.par_run(witems.len() as u64, 1, |i, l| {
+        ctx.watch(l.worker, || format!("win|{thorough}|{i}"));
+        run_win_item(&witems[i as usize], l)
+    });
+
     // family 4
     let mut gitems: Vec<(&'static str, bool, Entry)> = vec![];
     for f in families::GROWTH_FAMILIES.iter() {
@@ -540,7 +644,7 @@ fn main() {
         let (f, qd1, e) = gitems[i as usize];
         ctx.watch(l.worker, || format!("growth|{}|{}|{}", f, qd1, e.label()));
         let pts = run_growth(f, qd1, e, l);
-        if e == Entry::Message || (e == Entry::Request && qd1) {
+        if e == Entry::Message || ((e == Entry::Request || e == Entry::FrontDoor) && qd1) {
             let pick: Vec<Value> = pts
                 .iter()
                 .filter(|p| p.0 == 1 || p.0 == 64 || p.0 == 1024 || p.0 == 4096 || Some(*p) == pts.last())
@@ -573,7 +677,9 @@ fn main() {
         "f1:message:accepted", "f1:rdata:accepted", "f1:name:accepted",
         "f2:message:accepted", "f2:request:accepted", "f2:rdata:accepted", "f2:name:accepted", "f3:message:accepted", "f3:request:accepted",
         "f3:tsig-tbs:accepted", "f3:rdata:accepted", "f3:record:accepted", "f4:message:accepted", "f3:message:rejected",
-        "f3:seed-accepted",
+        "f3:seed-accepted", "f3:frontdoor:accepted", "f3:frontdoor:rejected", "f2:frontdoor:accepted", "f4:frontdoor:accepted",
+        "f1b:rdata:accepted", "f1b:rdata:rejected", "f5:message:accepted", "f5:message:rejected", "err:frontdoor:FormErr",
+        "err:frontdoor:NotImp", "err:frontdoor:no-response",
     ] {
         if ctx.outcome_count(k) == 0 {
             ctx.machinery_failure(&format!("vacuous run: outcome class {k} never occurred"));
